@@ -59,11 +59,25 @@ def n_array(eng, args, kw, n, st):
     return args[0]
 
 
+def _only_axis0(kw, n, what):
+    """the library contract covers the plain column aggregate only: any other keyword (dtype=, keepdims=, where=, ...) changes what numpy computes"""
+    for k_, v_ in kw.items():
+        t = z3.simplify(v_.t) if isinstance(v_, V) and v_.t is not None else None
+        if not (k_ == "axis" and t is not None and z3.is_int_value(t) and t.as_long() == 0):
+            raise OutOfSubset(n, f"{what}(..., {k_}=...) has no library contract")
+
+
 def n_mean(eng, args, kw, n, st):
+    _only_axis0(kw, n, "numpy.mean")
+    if len(args) != 1:
+        raise OutOfSubset(n, "numpy.mean with positional options")
     return V(TReal, MEAN(args[0].t))
 
 
 def n_sum(eng, args, kw, n, st):
+    _only_axis0(kw, n, "numpy.sum")
+    if len(args) != 1:
+        raise OutOfSubset(n, "numpy.sum with positional options")
     return V(TReal, SUM(args[0].t))
 
 
@@ -92,13 +106,39 @@ def arr_shape(eng, args, kw, n, st):
 
 
 arr_shape.is_property = True
+DTYPE = TObj("DType")
+DTYPE_OF = z3.Function("dtype_of", A, DTYPE.sort())
+KIND_OF = z3.Function("dtype_kind", DTYPE.sort(), z3.StringSort())
+
+
+def arr_dtype(eng, args, kw, n, st):
+    return V(DTYPE, DTYPE_OF(args[0].t))
+
+
+arr_dtype.is_property = True
+
+
+def dtype_kind(eng, args, kw, n, st):
+    from vf.pyvc.types import TStr
+
+    return V(TStr, KIND_OF(args[0].t))
+
+
+dtype_kind.is_property = True
+
+
+def arr_astype(eng, args, kw, n, st):
+    """data.astype(float): the same values as floats (the arrays of the model hold reals: conversion of integers / booleans is exact - A-float)"""
+    if not (len(args) == 2 and isinstance(args[1], PyConst) and args[1].name == "float"):
+        raise OutOfSubset(n, "astype of something other than float")
+    return args[0]
 
 SPEC_ENV = {
     "mean": lambda e, a, k, n, s: V(TReal, MEAN(a[0].t)), "sumsq": lambda e, a, k, n, s: V(TReal, SUM(SQ(a[0].t))),
     "nrows": lambda e, a, k, n, s: V(TInt, LEN(a[0].t)), "sqrt": lambda e, a, k, n, s: V(TReal, SQRT(_real(a[0]))),
     "centered": lambda e, a, k, n, s: V(ARR, SUBS(a[0].t, _real(a[1]))), "scaled": lambda e, a, k, n, s: V(ARR, DIVS(a[0].t, _real(a[1]))),
 }
-G = {"numpy": PyConst("numpy"), "numpy.array": n_array, "numpy.mean": n_mean, "numpy.sum": n_sum, "numpy.sqrt": n_sqrt}
+G = {"numpy": PyConst("numpy"), "float": PyConst("float"), "numpy.array": n_array, "numpy.mean": n_mean, "numpy.sum": n_sum, "numpy.sqrt": n_sqrt}
 T = "formulaic/transforms/scale.py::scale"
 
 
@@ -108,6 +148,9 @@ def build():
     reg.methods[("Arr", "__truediv__")] = arr_div
     reg.methods[("Arr", "__pow__")] = arr_pow
     reg.methods[("Arr", "shape")] = arr_shape
+    reg.methods[("Arr", "dtype")] = arr_dtype
+    reg.methods[("Arr", "astype")] = arr_astype
+    reg.methods[("DType", "kind")] = dtype_kind
     cs = []
     common = dict(returns=ARR, globals=G, spec_env=SPEC_ENV, axioms=[numpy_axioms], props=["C13", "C04"])
     # FIT: empty state, center=True, scale=True
